@@ -96,7 +96,7 @@ MUTANTS = [
     ("c16-default", ["C16"], CX, "fn default_use_cache() -> bool\n{\n    true\n}", "fn default_use_cache() -> bool\n{\n    false\n}", "use_cache default"),
     ("c16-unguarded-read", ["C16"], CX, "        if !config.use_cache || !cache_path.exists()\n", "        if !cache_path.exists()\n", "lock read with use_cache false"),
     # ---- C17
-    ("c17-unwrap", ["C17"], G, "        Ok(v) => Some(v),\n        Err(e) =>\n        {\n            let path_copy = path.clone();", "        Ok(v) => Some(v),\n        Err(e) if false => { let _ = e; Some(std::str::from_utf8(&[0xff]).unwrap().to_string()) },\n        Err(e) =>\n        {\n            let path_copy = path.clone();", "new unwrap"),
+    ("c17-unwrap", ["C17"], G, "        Ok(v) => Some(v),\n        Err(e) =>\n        {\n            let path_copy = path.clone();", "        Ok(v) => Some(v),\n        Err(e) if path.ends_with(\".bak.rs\") => { let _ = e; Some(std::str::from_utf8(&[0xff]).unwrap().to_string()) },\n        Err(e) =>\n        {\n            let path_copy = path.clone();", "new unwrap"),
     # ---- C18
     ("c18-no-poll", ["C18"], G,
      "            if stop_flag.load(std::sync::atomic::Ordering::Relaxed)\n            {\n                return None;\n            }\n\n            let path = file.path.clone();",
